@@ -130,6 +130,37 @@ var shapes = []shape{
 	mkShape("state-control-pointer", true, func(id int, s string) *state.ControlMessage { m := ctrlMsg(id, s); return &m }, func(m *state.ControlMessage) int { return ctrlID(*m) }),
 }
 
+// Two distinct event types that print identically (reflect.Type.String() is
+// "c15.Local" for both function-local types) and name themselves differently
+// through an embedded TypeNamer.
+type nameA struct{}
+
+func (nameA) EventTypeName() string { return "c15.local.a" }
+
+type nameB struct{}
+
+func (nameB) EventTypeName() string { return "c15.local.b" }
+
+func localShapeA() shape {
+	type Local struct {
+		nameA
+		ID int    `json:"id"`
+		S  string `json:"s"`
+	}
+	return mkShape("same-printed-name-a", true, func(id int, s string) Local { return Local{ID: id, S: s} }, func(e Local) int { return e.ID })
+}
+
+func localShapeB() shape {
+	type Local struct {
+		nameB
+		ID int    `json:"id"`
+		S  string `json:"s"`
+	}
+	return mkShape("same-printed-name-b", true, func(id int, s string) Local { return Local{ID: id, S: s} }, func(e Local) int { return e.ID })
+}
+
+func init() { shapes = append(shapes, localShapeA(), localShapeB()) }
+
 var apis = []string{"persist", "subscribe-replay", "upcast-source", "upcast-target", "replay-eventtype"}
 
 // Case: one shape through one API, with generated values around it.
